@@ -6,7 +6,7 @@
 //!   selperm <strat> r1 .. rn  -> the distinct (best,backup) index pairs of best_backup_position over
 //!                                ALL permutations of the candidates (n <= 6), in original indices
 //!   gen k1 .. kn              -> best_backup_generic over the integers themselves: <best>,<backup>
-use super::c10::{build, mutate, parse_route, random_route, ref_eligible, refusal, rfc_prefer, show_route, nat, path_of, base_route, RouteSpec};
+use super::c10::{build, may_be_refused, mutate, parse_route, random_route, ref_eligible, refusal, rfc_prefer, show_route, nat, path_of, base_route, RouteSpec};
 use crate::common::*;
 use routecore::bgp::path_attributes::PaMap;
 use routecore::bgp::path_selection::{best, best_backup, best_backup_generic, best_backup_position, OrdRoute, OrdStrat, Rfc4271, SkipMed, TiebreakerInfo};
@@ -44,6 +44,16 @@ fn sel_on<OS: OrdStrat + Copy>(built: &[(PaMap, TiebreakerInfo)], maps: &[&PaMap
         let (vb, vk) = best_backup(rs.iter());
         let sb = best(rs.iter());
         let (gb, gk) = best_backup_generic(rs.iter());
+        // the same candidates through an iterator that cannot tell its length (size_hint (0, None))
+        let mut src = rs.iter();
+        let (fb, fk) = best_backup_generic(std::iter::from_fn(|| src.next()));
+        let mut src = rs.iter();
+        let fs = best(std::iter::from_fn(|| src.next()));
+        let mut src = rs.iter();
+        let (fpb, fpk) = best_backup_position(std::iter::from_fn(|| src.next()));
+        let shape = if (idx(&rs, fb), idx(&rs, fk)) != (idx(&rs, gb), idx(&rs, gk)) || idx(&rs, fs) != idx(&rs, sb) || (fpb, fpk) != (pb, pk) {
+            format!(" unsized:pos={},{} best={} gen={},{}", oi(fpb), oi(fpk), idx(&rs, fs), idx(&rs, fb), idx(&rs, fk))
+        } else { String::new() };
         // the by-value flavour (T = OrdRoute, which is Copy) must pick routes with the same content
         let (ob, ok) = best_backup(rs.iter().copied());
         let same = |o: &Option<OrdRoute<OS>>, p: Option<usize>| match (o, p) {
@@ -53,7 +63,7 @@ fn sel_on<OS: OrdStrat + Copy>(built: &[(PaMap, TiebreakerInfo)], maps: &[&PaMap
         };
         let own = same(&ob, pb) && same(&ok, pk);
         format!("pos={},{} val={},{} best={} gen={},{}{}", oi(pb), oi(pk), idx(&rs, vb), idx(&rs, vk), idx(&rs, sb),
-            idx(&rs, gb), idx(&rs, gk), if own { "" } else { " by-value-differs" })
+            idx(&rs, gb), idx(&rs, gk), if own { "" } else { " by-value-differs" }) + &shape
     } else {
         let n = rs.len();
         let mut out: BTreeSet<(usize, Option<usize>)> = BTreeSet::new();
@@ -81,7 +91,7 @@ fn sel_on<OS: OrdStrat + Copy>(built: &[(PaMap, TiebreakerInfo)], maps: &[&PaMap
 
 /// is the reference preference, restricted to these candidates, a strict weak order?
 fn ref_weak_order(rs: &[RouteSpec], med: bool) -> bool {
-    if !med { return true; }   // (established for every triple by C10)
+    if !med { return true; }   // (judged for every triple by C10; proved: Thm/C10 skipMed_weak_order)
     let n = rs.len();
     let o: Vec<Vec<Ordering>> = (0..n).map(|i| (0..n).map(|j| rfc_prefer(&rs[i], &rs[j], med)).collect()).collect();
     for i in 0..n { for j in 0..n { for k in 0..n {
@@ -95,20 +105,38 @@ fn ref_weak_order(rs: &[RouteSpec], med: bool) -> bool {
     true
 }
 
-/// the statement of C11 for one presentation order: `b`/`k` are indices into `rs`
-fn judge(rs: &[RouteSpec], med: bool, b: usize, k: Option<usize>) -> Result<(), String> {
-    let lt = |x: usize, y: usize| rfc_prefer(&rs[x], &rs[y], med) == Ordering::Less;
-    for c in 0..rs.len() { if lt(c, b) { return Err(format!("candidate {} is preferred over the selected best {}", c, b)); } }
+/// Failures of a PREFERENCE clause (minimum, runner-up, order independence, two smallest) on candidates
+/// among which the reference preference is not a strict weak order carry this tag: with the MED step
+/// enabled the RFC 4271 preference is not transitive (Thm/C10 rfc4271_not_transitive), a cycle has no
+/// minimum at all (Thm/C11 rfc4271_statement_fails) - known finding K11.  The clauses that do not
+/// depend on transitivity are judged on every candidate set and never carry the tag.
+const K11: &str = "[K11] candidates not weakly ordered by the RFC 4271 preference with MED: ";
+
+/// the clauses about content, which hold for any comparison (Thm/C11 `content_clauses`): the backup is absent
+/// exactly when every candidate has the content of the best, otherwise its content differs from the best's
+fn judge_content(rs: &[RouteSpec], b: usize, k: Option<usize>) -> Result<(), String> {
+    if b >= rs.len() { return Err("best position out of range".into()); }
+    if k.map_or(false, |k| k >= rs.len()) { return Err("backup position out of range".into()); }
     let all_same = rs.iter().all(|c| *c == rs[b]);
     match k {
         None => if !all_same { return Err("no backup although a candidate differs in content from the best".into()); },
         Some(k) => {
             if all_same { return Err("backup returned although every candidate has the content of the best".into()); }
             if rs[k] == rs[b] { return Err(format!("backup {} has the same content as the best {}", k, b)); }
-            for c in 0..rs.len() {
-                if rs[c] != rs[b] && lt(c, k) {
-                    return Err(format!("candidate {} differs from the best {} and is preferred over the backup {}", c, b, k));
-                }
+        }
+    }
+    Ok(())
+}
+
+/// the clauses about preference: no candidate is preferred over the best; no candidate differing from the
+/// best is preferred over the backup.  `b`/`k` are indices into `rs` (checked by `judge_content`)
+fn judge_pref(rs: &[RouteSpec], med: bool, b: usize, k: Option<usize>) -> Result<(), String> {
+    let lt = |x: usize, y: usize| rfc_prefer(&rs[x], &rs[y], med) == Ordering::Less;
+    for c in 0..rs.len() { if lt(c, b) { return Err(format!("candidate {} is preferred over the selected best {}", c, b)); } }
+    if let Some(k) = k {
+        for c in 0..rs.len() {
+            if rs[c] != rs[b] && lt(c, k) {
+                return Err(format!("candidate {} differs from the best {} and is preferred over the backup {}", c, b, k));
             }
         }
     }
@@ -117,14 +145,17 @@ fn judge(rs: &[RouteSpec], med: bool, b: usize, k: Option<usize>) -> Result<(), 
 
 /// the statement of C11 on one reply (one way of presenting the candidates)
 fn judge_reply(op: &str, s: &str, rs: &[RouteSpec], reply: &str) -> Result<(), String> {
-    let (op, s) = (&op, &s);
     let all_el = rs.iter().all(ref_eligible);
-    if reply == "refused" { return if all_el { Err("eligible routes refused".into()) } else { Ok(()) }; }
+    if reply == "refused" {
+        // (refusing a route the property does not say is accepted - undefined ORIGIN value, Invalid optional
+        // attribute - is not judged: the collection then has no candidates to select from)
+        return if all_el && !rs.iter().any(may_be_refused) { Err("eligible routes refused".into()) } else { Ok(()) };
+    }
     if !all_el { return Err("an ineligible route reached selection".into()); }
-    let med = *s == "rfc4271";
-    // without a weak order on these candidates the statement has no model (Thm/C11 rfc4271_cycle_no_best)
-    if !ref_weak_order(&rs, med) { return Ok(()); }
-    if *op == "sel" {
+    let med = s == "rfc4271";
+    let weak = ref_weak_order(rs, med);
+    let tag = |e: String| if weak { e } else { format!("{}{}", K11, e) };
+    if op == "sel" {
         let f: Vec<&str> = reply.split(' ').collect();
         if f.len() < 4 { return Err(format!("unexpected reply {}", reply)); }
         let pos = pair(f[0].strip_prefix("pos=").ok_or("reply")?).ok_or("reply")?;
@@ -135,6 +166,7 @@ fn judge_reply(op: &str, s: &str, rs: &[RouteSpec], reply: &str) -> Result<(), S
             return if reply == "pos=-,- val=-,- best=- gen=-,-" { Ok(()) } else { Err("empty input must give nothing".into()) };
         }
         let b = pos.0.ok_or("no best for a non-empty collection")?;
+        // ---- independent of transitivity, judged on every candidate set
         // "positions agree with values", "the best is the route best() returns": judged on route content
         let same = |x: Option<usize>, y: Option<usize>| match (x, y) {
             (None, None) => true,
@@ -145,19 +177,21 @@ fn judge_reply(op: &str, s: &str, rs: &[RouteSpec], reply: &str) -> Result<(), S
         if f.len() > 4 { return Err("best_backup by value and by reference pick routes of different content".into()); }
         let sb: Option<usize> = single.parse().ok();
         if !same(sb, Some(b)) { return Err(format!("best() returns {} but best_backup's best is {}", single, b)); }
-        if pos.1.map_or(false, |k| k >= rs.len()) { return Err("backup position out of range".into()); }
-        judge(&rs, med, b, pos.1)?;
+        judge_content(rs, b, pos.1)?;
+        // ---- the preference clauses
+        judge_pref(rs, med, b, pos.1).map_err(tag)?;
         // the generic helper: given pairwise distinct items (no two tie) it returns the two smallest in order
         let distinct = (0..rs.len()).all(|i| (0..i).all(|j| rfc_prefer(&rs[i], &rs[j], med) != Ordering::Equal));
         if distinct {
             let gb = gen.0.ok_or("generic: no best")?;
+            if gb >= rs.len() || gen.1.map_or(false, |k| k >= rs.len()) { return Err("generic: position out of range".into()); }
             if gb != b { return Err("generic helper's best differs".into()); }
-            for c in 0..rs.len() { if rfc_prefer(&rs[c], &rs[gb], med) == Ordering::Less { return Err("generic: best is not the smallest".into()); } }
+            for c in 0..rs.len() { if rfc_prefer(&rs[c], &rs[gb], med) == Ordering::Less { return Err(tag("generic: best is not the smallest".into())); } }
             match gen.1 {
                 None => if rs.len() > 1 { return Err("generic: no backup for >= 2 distinct items".into()); },
                 Some(gk) => {
                     if gk == gb { return Err("generic: backup is the best".into()); }
-                    for c in 0..rs.len() { if c != gb && rfc_prefer(&rs[c], &rs[gk], med) == Ordering::Less { return Err("generic: backup is not the second smallest".into()); } }
+                    for c in 0..rs.len() { if c != gb && rfc_prefer(&rs[c], &rs[gk], med) == Ordering::Less { return Err(tag("generic: backup is not the second smallest".into())); } }
                 }
             }
         }
@@ -168,14 +202,15 @@ fn judge_reply(op: &str, s: &str, rs: &[RouteSpec], reply: &str) -> Result<(), S
         for p in reply.split(' ') {
             let (b, k) = pair(p).ok_or("reply")?;
             let b = b.ok_or("reply")?;
-            judge(&rs, med, b, k).map_err(|e| format!("in some presentation order: best={} backup={:?}: {}", b, k, e))?;
+            judge_content(rs, b, k).map_err(|e| format!("in some presentation order: best={} backup={:?}: {}", b, k, e))?;
+            judge_pref(rs, med, b, k).map_err(|e| tag(format!("in some presentation order: best={} backup={:?}: {}", b, k, e)))?;
             classes.push(k);
         }
         // order independence of the backup's preference class
         for x in &classes { for y in &classes {
             match (x, y) {
                 (Some(x), Some(y)) => if rfc_prefer(&rs[*x], &rs[*y], med) != Ordering::Equal {
-                    return Err(format!("backup depends on presentation order: candidates {} and {} are not equally preferred", x, y)); },
+                    return Err(tag(format!("backup depends on presentation order: candidates {} and {} are not equally preferred", x, y))); },
                 (None, None) => {}
                 _ => return Err("backup present in one presentation order and absent in another".into()),
             }
@@ -324,7 +359,17 @@ impl Prop for C11 {
                 let rs: Vec<RouteSpec> = rest.iter().map(|r| parse_route(r).unwrap()).collect();
                 // the same candidates presented with separate and with shared attribute maps
                 for (i, part) in reply.split(" | shared ").enumerate() {
-                    judge_reply(op, s, &rs, part).map_err(|e| if i == 0 { e } else { format!("when candidates with equal attributes share one PaMap object: {}", e) })?;
+                    let tag = |e: String| if i == 0 { e } else { format!("when candidates with equal attributes share one PaMap object: {}", e) };
+                    // ` unsized:pos=b,k best=b gen=b,k`: what the helpers return for the same candidates
+                    // handed over by an iterator without a size hint, when that differs
+                    let (base, unsized_) = match part.split_once(" unsized:") { Some((a, b)) => (a, Some(b)), None => (part, None) };
+                    judge_reply(op, s, &rs, base).map_err(tag)?;
+                    if let Some(u) = unsized_ {
+                        let t: Vec<&str> = u.split(' ').collect();
+                        if t.len() != 3 { return Err("reply".into()); }
+                        let as_reply = format!("{} val={} {} {}", t[0], t[0].trim_start_matches("pos="), t[1], t[2]);
+                        judge_reply(op, s, &rs, &as_reply).map_err(|e| tag(format!("through an iterator without a size hint: {}", e)))?;
+                    }
                 }
                 Ok(())
             }
